@@ -15,6 +15,12 @@ use crate::{Duration, Epoch, HifitimeError};
 /// Clippy thinks these are the same type, but they aren't.
 #[allow(clippy::unnecessary_fallible_conversions)]
 pub(crate) fn duration_since_unix_epoch() -> Result<Duration, HifitimeError> {
+    #[cfg(feature = "verif_seam")]
+    if let Some(simulated) = super::verif_seam::now() {
+        return simulated
+            .ok_or(HifitimeError::SystemTimeError)
+            .and_then(|d| d.try_into().map_err(|_| HifitimeError::SystemTimeError));
+    }
     // map_err maps the duration_since error into a hifitime error, if the conversion to a SystemTime fails.
     // Then we converts a valid SystemTime into a Hifitime duration, unless it fails via and_then
     web_time::SystemTime::now()
